@@ -245,6 +245,13 @@ func TestC18Race(t *testing.T) {
 							c.DeleteKey(k)
 						}
 					case wUpdate:
+						// a record merge into a row of "this worker's" block (commits of different blocks run in parallel)
+						c.QueryAt(uint32(w%3)<<14+uint32(i%64), func(r column.Row) error {
+							if _, live := r.Int("n"); live {
+								r.MergeRecord("r", &Rec{A: 1, B: "m"})
+							}
+							return nil
+						})
 						c.Query(func(txn *column.Txn) error {
 							n := txn.Int("n")
 							s := txn.String("s")
@@ -429,6 +436,16 @@ func TestC18Targeted(t *testing.T) {
 			var buf bytes.Buffer
 			c.Snapshot(&buf)
 			time.Sleep(40 * time.Millisecond)
+		}))
+	run("record merges committed into different blocks at the same time",
+		loop(func(c *column.Collection, i int) {
+			c.QueryAt(uint32(i%200), func(r column.Row) error { r.MergeRecord("r", &Rec{A: 1, B: "x"}); return nil })
+		}),
+		loop(func(c *column.Collection, i int) {
+			c.QueryAt(16384+uint32(i%100), func(r column.Row) error { r.MergeRecord("r", &Rec{A: 2, C: 3}); return nil })
+		}),
+		loop(func(c *column.Collection, i int) {
+			c.QueryAt(uint32(i%200), func(r column.Row) error { r.Record("r"); return nil })
 		}))
 	run("failing and rolled-back inserts beside each other and beside selections",
 		loop(func(c *column.Collection, i int) {
